@@ -10,6 +10,8 @@ def explore(res, scale=1, seed=None):
     colfam.run_family(res, "c07", BUDGET[res.tier] * scale, seed, builds=("default", "purego"))
     # cuts inside a String value longer than the reader's 1 MiB growth step, at the end of a block (direct oracle)
     colfam.run_family(res, "c07long", 4, seed, builds=("default",), sample=False)
+    # blocks ending in LowCardinality columns with UInt16 / UInt32 keys (more than 255 / 65535 distinct values), both builds
+    colfam.run_direct(res, "c07wide", 1, seed, builds=("default", "purego"))
     colfam.run_family(res, "c07msg", BUDGET[res.tier] * scale // 3, seed, builds=("default",), glue="Msg", gluemod="GlueMsg")
     res.extra["rule"] = ("every cut position (stride for encodings > 600 bytes in the quick tier) of column encodings of the catalogue "
                          "and of protocol messages at revisions around every feature threshold; compressed frames' cuts run under C05; "
